@@ -5,6 +5,7 @@ import copy
 import io
 import contextlib
 import math
+import json
 import random
 
 from harness import common
@@ -44,6 +45,11 @@ def gen_timeline(rng, nmax=10):
         for v in rng.sample(VARS, nv):
             cd[v] = rng.randint(-9, 99)
         evs.append([t, [[list(k), v] for k, v in cd.items()]])
+    # the same change listed again at other times (see py_timeline)
+    for _ in range(rng.choice([0, 0, 1, 2])):
+        if evs:
+            src = rng.choice(evs)
+            evs.append([rng.choice([e[0] for e in evs] + [rng.randint(0, 12)]), [list(x) for x in src[1]]])
     order = rng.random()
     if order < 0.3:
         evs.sort(key=lambda e: e[0])
@@ -92,7 +98,15 @@ def generate(seed, tier, enlarged=False):
 # ------------------------------------------------------------------ implementation
 
 def py_timeline(evs):
-    return [(t, {tuple(p): v for p, v in cd}) for t, cd in evs]
+    """events whose change dicts have the same content are given the very same dict object (a user naming a dict,
+    e.g. `pulse_on`, and listing it at several times)"""
+    seen, out = {}, []
+    for t, cd in evs:
+        key = json.dumps(cd, sort_keys=True)
+        if key not in seen:
+            seen[key] = {tuple(p): v for p, v in cd}
+        out.append((t, seen[key]))
+    return out
 
 
 def flatten_update(u, prefix=()):
